@@ -44,6 +44,9 @@ def sources(tier, seed):
     out += [(src, "gtype") for _, src in gnest.type_programs()]
     out += [(src, "gstmt") for _, src in gnest.stmt_programs()]
     out += [(src, "gident") for _, src in gnest.ident_programs()]
+    # wrap-boundary sweep: one identifier of each template grows through every length, so that each later element
+    # (type annotation, default value, `->`, operator, closing bracket) crosses each line width of the formatter
+    out += [(src, "gwidth") for _, src in gnest.width_programs(70 if tier == "quick" else 130)]
     n_rel = 1500 if tier == "quick" else 8000
     for prof in ("core", "window", "project"):
         out += [(grel.random_program_text(rng, prof), "grel") for _ in range(n_rel // 3)]
